@@ -232,10 +232,28 @@ class InitAnalysis:
         return cfg.find_path([cfg.entry], lambda n: n is cfg.exit,
                              avoid=avoid) is not None
 
+    def ctor_tree(self, cls):
+        """functions the constructor of cls can reach through calls on self
+        and base-constructor calls"""
+        for c in cls.mro():
+            if '__init__' in c.methods:
+                seen = set()
+                self.may_define(c.methods['__init__'], 0, seen)
+                return seen
+        return set()
+
     def stored_in_family(self, cls, attr):
+        """is self.<attr> stored by a method an instance of cls can run?
+        Constructors of other classes of the family that cls's own
+        constructor never reaches do not count (a subclass constructor that
+        skips super().__init__())."""
+        tree = self.ctor_tree(cls)
         for c in cls.mro() + cls.all_subclasses():
-            if attr in c.instance_attr_names():
-                return True
+            for m in c.methods.values():
+                if m.name == '__init__' and m not in tree and c in cls.mro():
+                    continue
+                if attr in _self_stores(m.node):
+                    return True
         return False
 
     def is_used(self, m):
@@ -470,7 +488,7 @@ def _init_rule(rid, props, prefixes, what, floor, consequence):
     return _r
 
 
-_init_rule('R03.f', ('C03', 'C01', 'C17', 'C19'), ('bardolph.vm',),
+_init_rule('R03.f', ('C03', 'C01', 'C17', 'C19', 'C06'), ('bardolph.vm',),
            'virtual machine', 40,
            'the VM stops the script on the fault')
 _init_rule('R06.n', ('C06', 'C04', 'C11', 'C20'),
@@ -499,7 +517,7 @@ _init_rule('R08.i', ('C08', 'C09', 'C17'),
 
 
 # ------------------------------------------------------------- registers
-@rule('R01.m', ('C01', 'C19', 'C17'), 'every register exists from the start '
+@rule('R01.m', ('C01', 'C19', 'C17', 'C06'), 'every register exists from the start '
       'and the registers a script can name start at zero', floor=20,
       decides='reading a register the script has not set yet gives the '
               'documented zero (no delay, colour 0, zone 0) and never stops '
